@@ -484,13 +484,15 @@ impl<'a, 'tcx> Cx<'a, 'tcx> {
 fn body_json<'tcx>(tcx: TyCtxt<'tcx>, did: DefId) -> Option<String> {
     let kind = tcx.def_kind(did);
     let is_fn = matches!(kind, DefKind::Fn | DefKind::AssocFn | DefKind::Closure);
-    if !is_fn {
+    // initializers of named constants (lookup tables written as `const T: [(u8, Token); N] = [..]`)
+    let is_const = matches!(kind, DefKind::Const { .. });
+    if !is_fn && !is_const {
         return None;
     }
-    if !tcx.is_mir_available(did) {
+    if is_fn && !tcx.is_mir_available(did) {
         return None;
     }
-    let body: &Body<'tcx> = tcx.optimized_mir(did);
+    let body: &Body<'tcx> = if is_const { tcx.mir_for_ctfe(did) } else { tcx.optimized_mir(did) };
     let env = TypingEnv::post_analysis(tcx, did);
     let cx = Cx { tcx, body, env };
     let mut locals = vec![];
